@@ -6,7 +6,7 @@ INIT TraceInit
 NEXT TraceNext
 VIEW TraceView
 CONSTRAINT HighWater
-INVARIANTS Gate Mirror Bounded NoConflict QuotaRetried Complete NoGap VerbatimBad PrefixOK
+INVARIANTS Gate Mirror Bounded NoConflict QuotaRetried Complete NoGap NoRepeat VerbatimBad PrefixOK
 PROPERTIES
 POSTCONDITION TraceAccepted
 CHECK_DEADLOCK FALSE
